@@ -12,6 +12,7 @@ package scriggo
 
 import (
 	"io/fs"
+	"reflect"
 )
 
 // ---- specification helpers (interpreted by govc) ----
@@ -287,3 +288,36 @@ func lemmaHTMLEscapeDecodes(s string, k int) bool {
 //@   props C24
 //@   requires 0 <= k && k < len(s)
 //@   ensures result
+
+// ---------------------------------------------------------------------------
+// C17: the values of the template's global variables.
+// initGlobalVariables binds exactly the globals of package "main" whose name
+// is a key of the map passed to Run: a value of the variable's type is copied
+// into a new addressable variable, a pointer to that type is dereferenced (so
+// the template and the caller share the variable), anything else is one of
+// the documented panics; every other global keeps its predefined value or
+// gets a fresh zero variable. UsedVars reports the names of all globals.
+// ---------------------------------------------------------------------------
+
+//@ func initGlobalVariables
+//@   props C17
+//@   panics allowed
+//@   opt puremethods IsValid Type Kind Elem IsNil
+//@   ensures len(result) == len(variables) || len(variables) == 0 && result == nil
+//@   ensures forall(0, len(variables), func(k int) bool { return variables[k].Pkg == "main" && hasKey(init, variables[k].Name) && reflect.ValueOf(init[variables[k].Name]).Type() != variables[k].Type ==> result[k] == reflect.ValueOf(init[variables[k].Name]).Elem() })
+//@   ensures forall(0, len(variables), func(k int) bool { return !(variables[k].Pkg == "main" && hasKey(init, variables[k].Name)) && variables[k].Value.IsValid() ==> result[k] == variables[k].Value })
+//@   loop 0
+//@     invariant len(values) == len(variables) && n == len(variables)
+//@     invariant forall(0, i, func(k int) bool { return variables[k].Pkg == "main" && hasKey(init, variables[k].Name) && reflect.ValueOf(init[variables[k].Name]).Type() != variables[k].Type ==> values[k] == reflect.ValueOf(init[variables[k].Name]).Elem() })
+//@     invariant forall(0, i, func(k int) bool { return !(variables[k].Pkg == "main" && hasKey(init, variables[k].Name)) && variables[k].Value.IsValid() ==> values[k] == variables[k].Value })
+
+func hasKey(m map[string]any, k string) bool { _, ok := m[k]; return ok }
+
+var _ = reflect.ValueOf
+
+//@ func (*Template).UsedVars
+//@   props C17
+//@   requires t != nil
+//@   ensures len(result) == len(t.globals)
+//@   loop 0
+//@     invariant len(vars) == len(t.globals)
